@@ -523,7 +523,7 @@ theorem default_modes_applied (cfg : Cfg) (c : Nat) (x : Ctx) (nick : Str) (regi
     simp [welcomeBurst_users, addUser_users]
 
 /-- `max_joins`: the JOIN decision loop never lets the channel count exceed `max_joins`
-    (if it was not already above), counts one per admitted channel, and admits nothing once
+    (if it was not already above), counts one per accepted channel, and accepts nothing once
     the limit is reached. -/
 theorem max_joins_enforced (cfg : Cfg) (w : World) (cn : Conn) (nick : Str) (inv : KSet)
     (chans : List Str) (keys : List (Option Str)) (cnt : Nat) :
